@@ -1,0 +1,34 @@
+//! Verification hook, compiled only with `--cfg nucleo_verif`: the extents of the views handed out by
+//! `MatrixSlab::alloc`, so that the byte range of every reference formed into the scratch allocation can be
+//! checked against the slab's size without a sanitizer.
+
+use std::cell::RefCell;
+
+/// One successful `MatrixSlab::alloc`.
+#[derive(Debug, Clone, PartialEq, Eq, Hash)]
+pub struct SlabViews {
+    pub haystack_len: usize,
+    pub needle_len: usize,
+    pub char_size: usize,
+    pub slab_size: usize,
+    /// (byte offset from the slab base, length in bytes) of haystack copy, bonus, row offsets, score row, matrix
+    pub views: [(usize, usize); 5],
+}
+
+thread_local! {
+    static LOG: RefCell<Vec<SlabViews>> = const { RefCell::new(Vec::new()) };
+}
+
+pub(crate) fn record(v: SlabViews) {
+    LOG.with(|l| {
+        let mut l = l.borrow_mut();
+        if l.len() < 4096 {
+            l.push(v)
+        }
+    })
+}
+
+/// Returns and clears the allocations recorded on this thread.
+pub fn take_slab_views() -> Vec<SlabViews> {
+    LOG.with(|l| std::mem::take(&mut *l.borrow_mut()))
+}
